@@ -156,6 +156,15 @@ CLAIMED = {
    ref="5/C09", note=TB + "PARTIAL for the avg2/avgx2 VALUE: the code reports the MC mean of the weighted set, which differs from the weighted mean of the calibrated "
         "temperature by sampling noise; it is judged with an 8-standard-error threshold (sampling support, not proof). `*_avg1` variables are produced in every "
         "mode (flag tested with `is not None`) - tolerated, they carry the right dims.", technique="Coq proof (finite dims program, weighted-mean algebra) + dims/value correspondence"),
+ "C10": dict(
+   text="PARTIAL. Proof: every residual row is written at the location it was computed for, for any order of the dictionary and of the stretches (T37; the "
+        "pre-repair placement is refuted: finding F7, repaired in all three estimators); the ddof=1 variance is invariant under permutation of the residuals "
+        "(T38) and scales with k^2 (T39); data of the model form leave a zero residual at the generating parameters (T40). Conformance: noise planted in one "
+        "stretch must show up in exactly that stretch of the returned residual array (finite at reference cells, NaN elsewhere) for ascending and reversed "
+        "dictionary order; noise-free estimate ~ 0; estimate independent of the order; var(k st) = k^2 var(st); the concatenation order compared with the model "
+        "in Coq. What the model cannot exhibit: convergence to s2 (1 - p/n) and slope/offset recovery of variance_stokes_linear - sampling support only.",
+   ref="5/C10", note=TB + "Powell (scipy.optimize.minimize) and LSQR are judged on their output; statistical clauses are not theorems.",
+   technique="Coq proof of placement / permutation / scaling laws + planted-noise conformance"),
 }
 NA = {}
 ALL = [f"C{i:02d}" for i in range(1, 21)]
